@@ -13,6 +13,8 @@
      {"t","e":"Kernel","i":k,"rd":[{"w":what,"cells":[..],"sid":s,"delta":d,"sidonly":bool}..],"wr":[{"cells","sid","delta"}..]}
      {"t","e":"Dma","i":k,"mode":"copy"|"retag","src":[cells],"dst":[cells],"shift":src-dst,
                     "insid","indelta","outsid","outdelta"}
+     {"t","e":"Out","i":k,"outs":[{"w":name,"cells":[..]}..]}   results of the custom operator (plan of the output file):
+                    every byte must be defined when the stream ends (written by it, or an input it aliases)
      {"t","e":"Stop"}                                                                                     *)
 EXTENDS Integers, Sequences, FiniteSets, Json, IOUtils, TLC
 
@@ -52,8 +54,14 @@ Dma == /\ Ev.e = "Dma"
                  ELSE [c \in S(Ev.dst) |->
                          LET s == mem[Ev.src[CHOOSE i \in 1..Len(Ev.dst) : Ev.dst[i] = c]]
                          IN IF s = Uninit THEN Uninit ELSE <<s[1], s[2] + Ev.shift>>] @@ mem
+(* the outputs of the custom operator are what CPU operators and later NPU subgraphs consume as "defined on entry": the
+   stream must have defined every byte of them at the address the output file publishes *)
+Out == /\ Ev.e = "Out"
+       /\ viol' = viol \cup { <<Ev.t, "OutputsDefined", Ev.i, Ev.outs[k].w>> :
+                                  k \in {k \in 1..Len(Ev.outs) : \E i \in 1..Len(Ev.outs[k].cells) : mem[Ev.outs[k].cells[i]] = Uninit} }
+       /\ UNCHANGED mem
 Stop == Ev.e = "Stop" /\ UNCHANGED <<mem, viol>>
-Next == l <= Len(Trace) /\ (Hdr \/ Kernel \/ Dma \/ Stop) /\ l' = l + 1
+Next == l <= Len(Trace) /\ (Hdr \/ Kernel \/ Dma \/ Out \/ Stop) /\ l' = l + 1
 Spec == Init /\ [][Next]_<<l, mem, viol>>
 Consumed == TLCGet("stats").diameter = Len(Trace) + 1
 Report == l = Len(Trace) + 1 => PrintT(<<"VERDICT", ToJson(viol)>>)
